@@ -20,6 +20,9 @@ package utils
 //@ ghost var gNFn int
 //@ ghost var gNFq map[int]int
 //@ ghost var gNFr map[int]bool
+//@ ghost var gNFc map[int]slice
+//@ ghost var gSUc map[int]slice
+//@ ghost var gSortOut slice
 //@ ghost var gSUn int
 //@ ghost var gSUq map[int]int
 //@ ghost var gSUr map[int]bool
@@ -34,14 +37,26 @@ package utils
 //@   effect-after gDivN := gDivN + 1
 
 //@ event call utils.isNonFatalConfig (combinations, divider, quantity)
+//@   effect-after gNFc := store(gNFc, gNFn, combinations)
 //@   effect-after gNFq := store(gNFq, gNFn, quantity)
 //@   effect-after gNFr := store(gNFr, gNFn, result)
 //@   effect-after gNFn := gNFn + 1
 
 //@ event call utils.isSuitableConfig (combinations, priorities, divider, quantity, diffLimit)
+//@   effect-after gSUc := store(gSUc, gSUn, combinations)
 //@   effect-after gSUq := store(gSUq, gSUn, quantity)
 //@   effect-after gSUr := store(gSUr, gSUn, result)
 //@   effect-after gSUn := gSUn + 1
+
+//@ event call utils.createSortedCopy (priorities)
+//@   effect-after gSortOut := result
+
+// gSortOut is the argument sorted high to low (gPerm / gInv witness the permutation).
+//@ pred sortedPermOf(S, P)
+//@   [C18] len(S) == len(P)
+//@   [C18] sorted-high-to-low: forall a, b :: 0 <= a && a < b && b < len(S) ==> S[a] >= S[b]
+//@   [C18] permutation: forall a :: 0 <= a && a < len(S) ==> (0 <= gPerm[a] && gPerm[a] < len(S) && S[a] == P[gPerm[a]])
+//@   [C18] permutation-onto: forall b :: 0 <= b && b < len(S) ==> (0 <= gInv[b] && gInv[b] < len(S) && S[gInv[b]] == P[b])
 
 // C18: true exactly when, for every combination, the division of `quantity` among its members
 // (as performed by the divider in this call) gave each member at least one unit.
@@ -72,61 +87,111 @@ package utils
 //@     invariant [* C18] gDivN == old(gDivN) + 2 * $i
 //@     invariant [* C18] forall j :: 0 <= j && j < $i ==> (gDivFilled[old(gDivN) + 2 * j] && gDivPri[old(gDivN) + 2 * j] == combinations[j] && gDivQ[old(gDivN) + 2 * j] == quantity)
 
-// The enumeration of the non-empty subsets is not specified (trusted: no claim about which
-// combinations are generated; see DESIGN.md 12.6).
+// C18: the enumeration of the non-empty subsets. pow2m1(n) = 2^n - 1. The result is characterised
+// structurally: after the first t priorities there are pow2m1(t) combinations; priority t
+// contributes, in order, a copy of each of them extended by priorities[t] (positions
+// pow2m1(t) .. 2*pow2m1(t)-1), and finally the singleton [priorities[t]] (position 2*pow2m1(t)). By induction on t this is exactly every non-empty subset of the
+// priorities, each in the order of the priorities slice, exactly once (DESIGN.md 12.6).
+//@ pred isExt(x, y, p)
+//@   [C18] len(x) == len(y) + 1 && x[len(y)] == p && (forall a :: 0 <= a && a < len(y) ==> x[a] == y[a])
+//@ pred isSingle(x, p)
+//@   [C18] len(x) == 1 && x[0] == p
+//@ pred comboStruct(C, P, n) opaque
+//@   [C18] count: len(C) == pow2m1(n)
+//@   [C18] extensions: forall t, i :: 0 <= t && t < n && pow2m1(t) <= i && i < 2 * pow2m1(t) ==> isExt(C[i], C[i - pow2m1(t)], P[t])
+//@   [C18] singletons: forall t :: 0 <= t && t < n ==> isSingle(C[2 * pow2m1(t)], P[t])
+
+// Capacity hint computed in floating point: only its sign matters (assumed).
+//@ func calcCombinationsQuantity
+//@   trusted
+//@   ensures result >= 0
+
+//@ func addToCombination
+//@   ensures [* C18] fresh(result) && isExt(result, combination, priority)
+
 //@ func genCombinations
-//@   trusted
+//@   reveal comboStruct
+//@   ensures [C18] every-non-empty-subset-once: comboStruct(result, priorities, len(priorities))
+//@   loop 0
+//@     invariant [* C18] comboStruct(combinations, priorities, $i)
+//@   loop 1
+//@     invariant [* C18] len($range) == pow2m1($i0) && len(combinations) == len($range) + $i && priority == priorities[$i0]
+//@     invariant [* C18] (combinations.arr == $range.arr ==> combinations.off == $range.off) && $range.arr < $nextref
+//@     invariant [* C18] forall j :: 0 <= j && j < len($range) ==> combinations[j] == $range[j]
+//@     invariant [* C18] forall t, i :: 0 <= t && t < $i0 && pow2m1(t) <= i && i < 2 * pow2m1(t) ==> isExt(combinations[i], combinations[i - pow2m1(t)], priorities[t])
+//@     invariant [* C18] forall t :: 0 <= t && t < $i0 ==> isSingle(combinations[2 * pow2m1(t)], priorities[t])
+//@     invariant [* C18] forall i :: len($range) <= i && i < len($range) + $i ==> isExt(combinations[i], combinations[i - len($range)], priority)
+
+// C18: a sorted (high to low) permutation of the argument in a fresh slice; the argument is untouched.
 //@ func createSortedCopy
-//@   trusted
+//@   modifies gPerm, gInv
+//@   ensures [C18] fresh(result) && len(result) == len(priorities)
+//@   ensures [C18] sorted-high-to-low: forall a, b :: 0 <= a && a < b && b < len(result) ==> result[a] >= result[b]
+//@   ensures [C18] permutation: forall a :: 0 <= a && a < len(result) ==> (0 <= gPerm[a] && gPerm[a] < len(result) && result[a] == priorities[gPerm[a]])
+//@   ensures [C18] permutation-onto: forall b :: 0 <= b && b < len(result) ==> (0 <= gInv[b] && gInv[b] < len(result) && result[gInv[b]] == priorities[b])
 
 // C18: the smallest / largest quantity in [1, maxQuantity] for which the predicate - as
 // evaluated by isNonFatalConfig / isSuitableConfig in this call - holds, or 0 if none.
 //@ func PickUpMinNonFatalQuantity
 //@   requires [*] divider != nil && maxQuantity < two64 - 1
-//@   modifies anycontent(uint), gDivN, gDivPri, gDivQ, gDivFilled, gNFn, gNFq, gNFr, gPerm, gInv, anyelems(uint)
+//@   modifies anycontent(uint), gDivN, gDivPri, gDivQ, gDivFilled, gNFn, gNFq, gNFr, gNFc, gSortOut, gPerm, gInv, anyelems(uint)
 //@   ensures [C18] zero-means-no-quantity-qualifies: result == 0 ==> (gNFn == old(gNFn) + maxQuantity && (forall j :: 0 <= j && j < maxQuantity ==> (gNFq[old(gNFn) + j] == j + 1 && !gNFr[old(gNFn) + j])))
 //@   ensures [C18] smallest-qualifying-quantity: result != 0 ==> (1 <= result && result <= maxQuantity && gNFn == old(gNFn) + result && gNFr[gNFn - 1]
 //@            && (forall j :: 0 <= j && j < result ==> (gNFq[old(gNFn) + j] == j + 1 && (j < result - 1 ==> !gNFr[old(gNFn) + j]))))
+//@   ensures [C18] every-evaluation-on-every-non-empty-subset-of-the-sorted-priorities: sortedPermOf(gSortOut, priorities) && (forall j :: 0 <= j && j < gNFn - old(gNFn) ==> gNFc[old(gNFn) + j] == gNFc[old(gNFn)])
+//@            && (gNFn > old(gNFn) ==> comboStruct(slices(gNFc[old(gNFn)]), gSortOut, len(priorities)))
 //@   loop 0
+//@     invariant [* C18] forall j :: 0 <= j && j < $i ==> gNFc[old(gNFn) + j] == combinations
 //@     invariant [* C18] 1 <= quantity && quantity <= maxQuantity + 1 && gNFn == old(gNFn) + $i
 //@     invariant [* C18] forall j :: 0 <= j && j < $i ==> (gNFq[old(gNFn) + j] == j + 1 && !gNFr[old(gNFn) + j])
 
 //@ func PickUpMaxNonFatalQuantity
 //@   requires [*] divider != nil
-//@   modifies anycontent(uint), gDivN, gDivPri, gDivQ, gDivFilled, gNFn, gNFq, gNFr, gPerm, gInv, anyelems(uint)
+//@   modifies anycontent(uint), gDivN, gDivPri, gDivQ, gDivFilled, gNFn, gNFq, gNFr, gNFc, gSortOut, gPerm, gInv, anyelems(uint)
 //@   ensures [C18] zero-means-no-quantity-qualifies: result == 0 ==> (gNFn == old(gNFn) + maxQuantity && (forall j :: 0 <= j && j < maxQuantity ==> (gNFq[old(gNFn) + j] == maxQuantity - j && !gNFr[old(gNFn) + j])))
 //@   ensures [C18] largest-qualifying-quantity: result != 0 ==> (1 <= result && result <= maxQuantity && gNFn == old(gNFn) + (maxQuantity - result) + 1 && gNFr[gNFn - 1]
 //@            && (forall j :: 0 <= j && j <= maxQuantity - result ==> (gNFq[old(gNFn) + j] == maxQuantity - j && (j < maxQuantity - result ==> !gNFr[old(gNFn) + j]))))
+//@   ensures [C18] every-evaluation-on-every-non-empty-subset-of-the-sorted-priorities: sortedPermOf(gSortOut, priorities) && (forall j :: 0 <= j && j < gNFn - old(gNFn) ==> gNFc[old(gNFn) + j] == gNFc[old(gNFn)])
+//@            && (gNFn > old(gNFn) ==> comboStruct(slices(gNFc[old(gNFn)]), gSortOut, len(priorities)))
 //@   loop 0
+//@     invariant [* C18] forall j :: 0 <= j && j < maxQuantity - quantity ==> gNFc[old(gNFn) + j] == combinations
 //@     invariant [* C18] quantity <= maxQuantity && gNFn == old(gNFn) + (maxQuantity - quantity)
 //@     invariant [* C18] forall j :: 0 <= j && j < maxQuantity - quantity ==> (gNFq[old(gNFn) + j] == maxQuantity - j && !gNFr[old(gNFn) + j])
 
 //@ func PickUpMinSuitableQuantity
 //@   requires [*] divider != nil && maxQuantity < two64 - 1
-//@   modifies anycontent(uint), gDivN, gDivPri, gDivQ, gDivFilled, gSUn, gSUq, gSUr, gPerm, gInv, anyelems(uint)
+//@   modifies anycontent(uint), gDivN, gDivPri, gDivQ, gDivFilled, gSUn, gSUq, gSUr, gSUc, gSortOut, gPerm, gInv, anyelems(uint)
 //@   ensures [C18] zero-means-no-quantity-qualifies: result == 0 ==> (gSUn == old(gSUn) + maxQuantity && (forall j :: 0 <= j && j < maxQuantity ==> (gSUq[old(gSUn) + j] == j + 1 && !gSUr[old(gSUn) + j])))
 //@   ensures [C18] smallest-qualifying-quantity: result != 0 ==> (1 <= result && result <= maxQuantity && gSUn == old(gSUn) + result && gSUr[gSUn - 1]
 //@            && (forall j :: 0 <= j && j < result ==> (gSUq[old(gSUn) + j] == j + 1 && (j < result - 1 ==> !gSUr[old(gSUn) + j]))))
+//@   ensures [C18] every-evaluation-on-every-non-empty-subset-of-the-sorted-priorities: sortedPermOf(gSortOut, priorities) && (forall j :: 0 <= j && j < gSUn - old(gSUn) ==> gSUc[old(gSUn) + j] == gSUc[old(gSUn)])
+//@            && (gSUn > old(gSUn) ==> comboStruct(slices(gSUc[old(gSUn)]), gSortOut, len(priorities)))
 //@   loop 0
+//@     invariant [* C18] forall j :: 0 <= j && j < $i ==> gSUc[old(gSUn) + j] == combinations
 //@     invariant [* C18] 1 <= quantity && quantity <= maxQuantity + 1 && gSUn == old(gSUn) + $i
 //@     invariant [* C18] forall j :: 0 <= j && j < $i ==> (gSUq[old(gSUn) + j] == j + 1 && !gSUr[old(gSUn) + j])
 
 //@ func PickUpMaxSuitableQuantity
 //@   requires [*] divider != nil
-//@   modifies anycontent(uint), gDivN, gDivPri, gDivQ, gDivFilled, gSUn, gSUq, gSUr, gPerm, gInv, anyelems(uint)
+//@   modifies anycontent(uint), gDivN, gDivPri, gDivQ, gDivFilled, gSUn, gSUq, gSUr, gSUc, gSortOut, gPerm, gInv, anyelems(uint)
 //@   ensures [C18] zero-means-no-quantity-qualifies: result == 0 ==> (gSUn == old(gSUn) + maxQuantity && (forall j :: 0 <= j && j < maxQuantity ==> (gSUq[old(gSUn) + j] == maxQuantity - j && !gSUr[old(gSUn) + j])))
 //@   ensures [C18] largest-qualifying-quantity: result != 0 ==> (1 <= result && result <= maxQuantity && gSUn == old(gSUn) + (maxQuantity - result) + 1 && gSUr[gSUn - 1]
 //@            && (forall j :: 0 <= j && j <= maxQuantity - result ==> (gSUq[old(gSUn) + j] == maxQuantity - j && (j < maxQuantity - result ==> !gSUr[old(gSUn) + j]))))
+//@   ensures [C18] every-evaluation-on-every-non-empty-subset-of-the-sorted-priorities: sortedPermOf(gSortOut, priorities) && (forall j :: 0 <= j && j < gSUn - old(gSUn) ==> gSUc[old(gSUn) + j] == gSUc[old(gSUn)])
+//@            && (gSUn > old(gSUn) ==> comboStruct(slices(gSUc[old(gSUn)]), gSortOut, len(priorities)))
 //@   loop 0
+//@     invariant [* C18] forall j :: 0 <= j && j < maxQuantity - quantity ==> gSUc[old(gSUn) + j] == combinations
 //@     invariant [* C18] quantity <= maxQuantity && gSUn == old(gSUn) + (maxQuantity - quantity)
 //@     invariant [* C18] forall j :: 0 <= j && j < maxQuantity - quantity ==> (gSUq[old(gSUn) + j] == maxQuantity - j && !gSUr[old(gSUn) + j])
 
 //@ func IsNonFatalConfig
 //@   requires [*] divider != nil
-//@   modifies anycontent(uint), gDivN, gDivPri, gDivQ, gDivFilled, gNFn, gNFq, gNFr, gPerm, gInv, anyelems(uint)
+//@   ensures [C18] evaluated-on-every-non-empty-subset-of-the-sorted-priorities: sortedPermOf(gSortOut, priorities) && comboStruct(slices(gNFc[old(gNFn)]), gSortOut, len(priorities))
+//@   modifies anycontent(uint), gDivN, gDivPri, gDivQ, gDivFilled, gNFn, gNFq, gNFr, gNFc, gSortOut, gPerm, gInv, anyelems(uint)
 //@   ensures [C18] result-is-the-predicate: gNFn == old(gNFn) + 1 && gNFq[old(gNFn)] == quantity && (gNFr[old(gNFn)] <==> result)
 
 //@ func IsSuitableConfig
 //@   requires [*] divider != nil
-//@   modifies anycontent(uint), gDivN, gDivPri, gDivQ, gDivFilled, gSUn, gSUq, gSUr, gPerm, gInv, anyelems(uint)
+//@   ensures [C18] evaluated-on-every-non-empty-subset-of-the-sorted-priorities: sortedPermOf(gSortOut, priorities) && comboStruct(slices(gSUc[old(gSUn)]), gSortOut, len(priorities))
+//@   modifies anycontent(uint), gDivN, gDivPri, gDivQ, gDivFilled, gSUn, gSUq, gSUr, gSUc, gSortOut, gPerm, gInv, anyelems(uint)
 //@   ensures [C18] result-is-the-predicate: gSUn == old(gSUn) + 1 && gSUq[old(gSUn)] == quantity && (gSUr[old(gSUn)] <==> result)
